@@ -283,6 +283,31 @@ func vh_pick_coverage() {
 	}
 }
 
+// (d) base case of the coverage argument: the search starts AT the random offset (iteration 0
+// tests port 16000+offset); together with "i advances by one" (pick_step) and "iteration i*
+// tests p" (pick_coverage) every port of the range is tested before giving up.
+func vh_pick_first() {
+	pm := NewPortManager()
+	offset := vnU32("offset")
+	vassume(offset < vhCount)
+	if vsymbolic() {
+		vrandPush(offset)
+	} else {
+		vhSeedRand(offset)
+	}
+	calls := 0
+	var first uint16
+	pm.PickEphemeralPort(func(port uint16) (bool, *tcpip.Error) {
+		if calls == 0 {
+			first = port
+		}
+		calls++
+		return true, nil // accept at once: only the first iteration runs
+	})
+	vassert(calls == 1 && uint32(first) == FirstEphemeral+offset, "the first port tested is the one at the random offset (no candidate is skipped)")
+	vreach("first")
+}
+
 // vhSeedRand searches a math/rand seed whose first Int31n(count) is the wanted offset
 // (native replay only; the executor never runs it).
 func vhSeedRand(offset uint32) {
